@@ -50,7 +50,7 @@ def make_items(ctx, only=None):
         if only and name != only:
             continue
         rng = C.Prng(C.mix_seed(ctx.seed, 30, 7, i))
-        wl = K.gen_workload(rng, big=(i % 7 == 6), same_prefix=True, splitdbg=True)
+        wl = K.gen_workload(rng, big=(i % 7 == 6), same_prefix=True, splitdbg=True, deb=True)
         if i == 0:
             wl = {'files': [{'path': 'libtiny.so', 'v1': 'tiny_v0', 'v2': 'tiny_v1'}, {'path': 'libmathx.so', 'v1': 'mathx_v0', 'v2': None}],
                   'format': 'dir', 'abignore': 'none', 'options': ['--no-default-suppression']}       # removed binary, every other pair clean
@@ -74,6 +74,10 @@ def make_items(ctx, only=None):
             wl = {'files': [{'path': 'libfnptr.so', 'v1': 'fnptr_v0', 'v2': 'fnptr_v1'}, {'path': 'libmathx.so', 'v1': 'mathx_v0', 'v2': None},
                             {'path': 'libtiny.so', 'v1': 'tiny_v0_nodbg', 'v2': 'tiny_v1'}],
                   'format': 'tar.gz', 'abignore': 'none', 'options': ['--no-default-suppression'], 'splitdbg': True}   # split debug info in archives, a removed binary, one binary without any
+        if i == 7:
+            wl = {'files': [{'path': 'usr/lib64/libalias.so', 'v1': 'alias_v0', 'v2': 'alias_v1'}, {'path': 'usr/lib64/libmathx.so', 'v1': 'mathx_v0', 'v2': None},
+                            {'path': 'usr/lib64/libtiny.so', 'v1': 'tiny_v0', 'v2': 'tiny_v1'}, {'path': 'usr/lib64/libcxx.so', 'v1': None, 'v2': 'cxx_v2'}],
+                  'format': 'deb', 'abignore': 'first', 'options': ['--no-default-suppression'], 'splitdbg': True}   # Debian packages with -dbg packages
         if len(set(K.side_prefixes(wl))) != 1:
             raise C.InfraError('workload %s leaves the region the reference model is valid in: ELF directory prefixes %r' % (name, K.side_prefixes(wl)))
         it = c31.prepare_item(ctx, name, wl, variant='plain')
@@ -128,7 +132,8 @@ def execute_torn(ctx, it, params):
         import threading
         probe = os.path.join(ctx.rundir, 'probe-%d-%d-%s' % (os.getpid(), threading.get_ident(), C.sha(('%s|%d' % (src, cut)).encode())[:12]))
         open(probe, 'wb').write(body[:cut])
-        ctx.memo[pk] = subprocess.run(['tar', '-tf', probe], stdout=subprocess.DEVNULL, stderr=subprocess.DEVNULL).returncode == 0
+        cmd = ['dpkg-deb', '--fsys-tarfile', probe] if it['wl']['format'] == 'deb' else ['tar', '-tf', probe]
+        ctx.memo[pk] = subprocess.run(cmd, stdout=subprocess.DEVNULL, stderr=subprocess.DEVNULL).returncode == 0
         os.unlink(probe)
     tar_accepts = ctx.memo[pk]
 
